@@ -35,3 +35,18 @@ for _t, _isint in (('double', 0), ('int', 1)):
       timeout_ms={'quick': 60000, 'thorough': 600000}, validate={'quick': 10, 'thorough': 30}, validate_doubles='int',
       what='VectorT<T>::getVector() const / getVectorPtr() const return the shared std::vector mutable: a write through them on one vector must not reach its copy',
       out='as C10.c', assumptions=_COW_ASSUME, stubs=['throw_exp(msg,file,line): throws an int'])
+
+# C10.a  KrigingCalcul memo invalidation (shared with C04.b)
+_KC_TUS = ['src/Estimation/KrigingCalcul.cpp', 'src/Matrix/AMatrix.cpp', 'src/Matrix/AMatrixDense.cpp', 'src/Matrix/MatrixRectangular.cpp',
+           'src/Matrix/AMatrixSquare.cpp', 'src/Matrix/MatrixSquareSymmetric.cpp', 'src/Basic/AStringable.cpp']
+K('C10.a', property='C10', engine='symex', harness='C10/kcalc.cpp',
+  entries=['k_setData', 'k_setLHS', 'k_setRHS', 'k_setVar', 'k_setColCokUnique', 'k_setBayes', 'k_reset'], tus=_KC_TUS,
+  bounds={'quick': 'every null/non-null combination of the 18 memo matrices + _C_RHS/_X_RHS, every empty/non-empty combination of _Zstar/_Beta/_Z0p/_bDual/_cDual, '
+                   'every present/absent combination of the 13 input pointers, _neq/_nbfl/_nrhs/_ncck/_nxvalid in [0,3], arbitrary flags; arguments null or objects of fixed small shape'},
+  timeout_ms={'quick': 60000, 'thorough': 600000}, validate={'quick': 20, 'thorough': 50},
+  what='KrigingCalcul::setData, setLHS, setRHS, setVar, setColCokUnique, setBayes, resetLinkedTo* (7) with the _delete* graph: every memo that transitively depends '
+       '(table read from the _need* functions) on an input the call replaced is null/empty afterwards',
+  out='setXvalidUnique (matrix algebra); _C_RHS/_X_RHS as functions of Sigma/X; edge rankXvalidVars -> Zstar; values of the matrices',
+  assumptions=['KrigingCalcul object built by its constructor, then every field overwritten with the arbitrary pre-state',
+               'memo objects are real MatrixRectangular(1,1)/MatrixSquareSymmetric(1) so that delete runs the real destructors'],
+  stubs=['messerr / message: empty (error text only)', 'strlen: plain loop (solver build only)'])
